@@ -252,11 +252,21 @@ class SymArray:
     def dtype(self):
         return _DType(self.t.name)
 
+    def __ne__(self, o):
+        return _BoolMask([x != o for x in self.data])
+
+    def __eq__(self, o):
+        return _BoolMask([x == o for x in self.data])
+
+    __hash__ = None
+
     def __getitem__(self, i):
+        if isinstance(i, tuple) and len(i) == 2 and isinstance(i[0], slice) and i[0] == slice(None) and isinstance(i[1], int):
+            return SymArray([row[i[1]] for row in self.data], self.t)
         if isinstance(i, _BoolMask):
             keep = []
             for row, m in zip(self.data, i.bits):
-                nz = m != 0
+                nz = m if isinstance(m, (bool, SBool)) else (m != 0)
                 if nz if isinstance(nz, bool) else bool(nz):
                     keep.append(row)
             return SymArray(keep, self.t)
@@ -306,6 +316,14 @@ class SymArray:
 class _BoolMask:
     def __init__(self, bits):
         self.bits = bits
+
+    def __or__(self, o):
+        from .ifconv import g_or
+        return _BoolMask([g_or(a, b) for a, b in zip(self.bits, o.bits)])
+
+    def __and__(self, o):
+        from .ifconv import g_and
+        return _BoolMask([g_and(a, b) for a, b in zip(self.bits, o.bits)])
 
 
 class _DType:
@@ -364,6 +382,12 @@ class _SymNP:
             acc = x if acc is None else coerce(t, acc + x)
             out.append(acc)
         return SymArray(out, t)
+
+    def copy(self, a):
+        import copy as _copy
+        if isinstance(a, View):
+            return View([list(r) if isinstance(r, list) else r for r in a.data], a.t, a.boundscheck, a.wraparound, a.name)
+        return SymArray([list(r) if isinstance(r, list) else r for r in a.data], a.t)
 
     def iinfo(self, dtype):
         t = ctype(dtype.name if isinstance(dtype, _DType) else (dtype.name if isinstance(dtype, rt.CType) else str(dtype)))
